@@ -4,7 +4,6 @@ package main
 
 import (
 	"encoding/binary"
-	"encoding/json"
 	"errors"
 	"fmt"
 	"io"
@@ -44,6 +43,9 @@ type c03Obs struct {
 	Recs []c03Rec `json:"recs"`
 	Err  string   `json:"err,omitempty"`
 	Pan  string   `json:"panic,omitempty"`
+	// ErrForgotten: Err() was non-nil when Next first returned false and nil after Next was called again
+	// (consumers such as the range aggregation call Next again at every later step).
+	ErrForgotten bool `json:"err_forgotten,omitempty"`
 }
 
 var errC03 = errors.New("verif: injected read error")
@@ -194,6 +196,10 @@ func c03Exec(in c03Input) (obs c03Obs, rd *planReader) {
 		}
 		if err := it.Err(); err != nil {
 			obs.Err = err.Error()
+			for k := 0; k < 2; k++ {
+				it.Next(&rec)
+			}
+			obs.ErrForgotten = it.Err() == nil
 		}
 		_ = it.Close()
 	}()
@@ -217,6 +223,8 @@ func c03Check(r *vkit.Run, in c03Input) {
 		fail(fmt.Sprintf("decoded %d records, expected exactly the %d whole records before the cut/fault", len(obs.Recs), expN))
 	case expErr && obs.Err == "":
 		fail("stream broke inside a frame body / daemon error frame / bad timestamp / read error, but no error is reported")
+	case obs.ErrForgotten:
+		fail("the failure was reported (" + obs.Err + ") and then forgotten: after two more Next calls Err() is nil, so a consumer that polls the iterator again sees a clean, shorter log")
 	case !expErr && obs.Err != "":
 		fail("clean stream (or cut inside a header / at a frame boundary) reported an error: " + obs.Err)
 	case rd.closed < 1:
@@ -350,7 +358,7 @@ func c03Run(r *vkit.Run) {
 
 func c03Replay(r *vkit.Run, v vkit.Violation) *vkit.Violation {
 	var in c03Input
-	if err := json.Unmarshal(v.Input, &in); err != nil {
+	if err := vkit.DecodeInput(v, &in); err != nil {
 		r.HarnessError("bad input: %v", err)
 	}
 	return vkit.ReplayOne(r, func() { c03Check(r, in) })
